@@ -43,6 +43,15 @@ def lower(v, memo=None):
         for k, x in v.fields.items():
             object.__setattr__(r, k, lower(x, memo))
         return r
+    if type(v).__name__ == 'SExt':
+        from .ext import FakeSocket
+        if v.kind == 'socket':
+            data = lower(v.fields['data'], memo)
+            r = FakeSocket(bytes(x % 256 for x in data), lower(v.fields['pos'], memo),
+                           lower(v.fields.get('sent', SList()), memo))
+            memo[v.oid] = r
+            return r
+        raise CannotLower(f'external {v.kind}')
     if isinstance(v, SList):
         r = []
         memo[v.oid] = r
@@ -237,6 +246,10 @@ def native_check(c, registry, args):
         outcome = 'return'
     except BaseException as e:  # noqa
         outcome = e
+    from .ext import NonTermination
+    if isinstance(outcome, NonTermination):
+        info['outcome'] = f'does not terminate: {outcome}'
+        return [(f'{short}/loop0.variant', f'the call does not terminate: {outcome}')], info
     if outcome == 'return':
         info['outcome'] = 'return'
         info['result'] = describe_native(result)
